@@ -14,6 +14,8 @@ Violations(line) ==
   \cup R("partial-set", ~o.ok /\ o.partial)
      \* the same store name under another type is another store (also on a re-used trust store instance)
   \cup R("store-of-another-type", ~o.crossOK)
+     \* ... and what it returns is what the directory holds when it is asked, not what it held earlier
+  \cup R("stale-after-change", ~o.reloadOK)
 Init == l = 1
 Next == /\ l <= Len(Trace)
         /\ LET v == Violations(Trace[l]) IN
